@@ -7,7 +7,7 @@ from gcommon import *
 from exact import oracle_c01, cycles_of
 
 THEOREMS = ["Parmcb.C02.c02_value_unique", "Parmcb.C02.c02_mcb_weight_unique", "Parmcb.C08.c08_mcb_exists", "Parmcb.C08.c08_scale",
-            "Parmcb.C08.c08_isolated", "Parmcb.C08.c08_pendant", "Parmcb.C08.c08_relabel", "Parmcb.C08.c08_union"]
+            "Parmcb.C08.c08_isolated", "Parmcb.C08.c08_pendant", "Parmcb.C08.c08_relabel", "Parmcb.C08.c08_union", "Parmcb.C08.c08_bridge", "Parmcb.C08.c08_subdivide"]
 VARIANTS = ["signed", "fvs", "iso", "signed_tbb", "fvs_tbb", "iso_tbb"]
 
 def transforms(r, n, WE):
@@ -53,9 +53,8 @@ def big_graph(r, n):
 
 def run(tier, replay=None):
     res = Result("C08", tier, "proof")
-    res.assumptions = ["on the large graphs agreement between variants/transforms is OBSERVED, not certified by an independent optimum (the oracle is used up to n <= 40)",
-                       "c08_bridge_subdivision_partial: bridge and subdivision invariance are exercised by the runs only (not proved)"]
-    lean_ok = lean_gate(res, "Parmcb.Props.C08", THEOREMS)
+    res.assumptions = ["on the large graphs agreement between variants/transforms is OBSERVED, not certified by an independent optimum (the oracle is used up to n <= 40)"]
+    lean_ok = lean_gate(res, "Parmcb.Props.C08b", THEOREMS)
     binary, log = compile_harness("h_graph.cpp", opt="-O2")
     if binary is None:
         res.violation("harness does not compile against the working tree", {"kind": "compile", "log": log[-3000:]}, found=False); return res.finish()
